@@ -159,6 +159,10 @@ def histories():
                   note="packed repr(C) u8,u8,u16,u32: two fields added in version 1"))
     H.append(Hist("h9", [LF("a", "u8"), LF("w", [(1, "u8", None), (2, "u16", None)], added=1), LF("z", "u8")], 3, tier="q",
                   note="field added in version 1 (Default) and type-changed in version 2: loaded from before it existed and from the old type"))
+    H.append(Hist("h10", [LF("a", "u64"), LF("x", "u16", added=1, removed=2, default=("val", "300")), LF("b", "u8")], 3, tier="q",
+                  note="the same field is added in version 1 and removed (AbiRemoved) in version 2"))
+    H.append(Hist("h11", [LF("a", "u32"), LF("b", "u16", removed=1), LF("c", "u16"), LF("d", "u32")], 2, tier="t",
+                  note="repr(Rust) struct: packed-primitive run directly before and after an AbiRemoved field"))
     H.append(Hist("h8", [LF("a", "u32"), LF("b", "u32", removed=1), LF("c", "u32")], 2, repr_c=True, tier="q",
                   note="packed repr(C): middle field removed (AbiRemoved): version 0 wire != memory layout of version 1"))
     return H
